@@ -30,7 +30,8 @@ GUARD = "GJJVDBURG_LABELLA_PY_VERIF"
 FORBIDDEN = re.compile(
     r"\b(Admitted|admit|Axiom|Axioms|Parameter|Parameters|Conjecture|Conjectures|"
     r"Admit Obligations|bypass_check|Unset Guard Checking|Unset Positivity Checking|"
-    r"Unset Universe Checking|type-in-type|impredicative-set|native_compute)\b"
+    r"Unset Universe Checking|type-in-type|impredicative-set|native_compute|Program Fixpoint|Program Definition|"
+    r"Program Lemma|Function|funelim|Equations|Obligation|give_up)\b"
 )
 TOPLEVEL_VAR = re.compile(r"^\s*(Variable|Variables|Hypothesis|Hypotheses|Context)\b")
 
@@ -410,7 +411,7 @@ def run(prop, tier, seed, replay=None):
             unexplained.append((i, why))
     if unexplained:
         i, why = unexplained[0]
-        small = shrink(prop, cases[i], workdir) if hasattr(prop, "shrink_candidates") else cases[i]
+        small = shrink(prop, cases[i], workdir, lambda c, w: is_known(c, w) is not None) if hasattr(prop, "shrink_candidates") else cases[i]
         small_out = impl_out[i] if small is cases[i] else run_impl(prop.MODNAME, [small], workdir, shards=1)[0]
         payload = {"property": pid, "kind": "failing-input", "why": prop.oracle(small, small_out) or why,
                    "cases": [strip_case(small)], "impl_out": small_out,
@@ -526,8 +527,9 @@ def strip_case(c):
     return {k: v for k, v in c.items() if k != "model"} | ({"model": c["model"]} if len(json.dumps(c.get("model", []))) < 2000 else {})
 
 
-def shrink(prop, case, workdir, budget=60):
-    """Greedy shrinking with the property's own candidates and oracle."""
+def shrink(prop, case, workdir, known=None, budget=60):
+    """Greedy shrinking with the property's own candidates and oracle; a candidate whose
+    failure is a listed open finding is not a smaller instance of THIS violation."""
     cur = case
     for _ in range(budget):
         cands = list(prop.shrink_candidates(cur))[:12]
@@ -536,7 +538,11 @@ def shrink(prop, case, workdir, budget=60):
         outs = run_impl(prop.MODNAME, cands, workdir, shards=1)
         nxt = None
         for c, o in zip(cands, outs):
-            if prop.oracle(c, o):
+            try:
+                w = prop.oracle(c, o)
+            except Exception:  # noqa
+                w = None
+            if w and not (known and known(c, w)):
                 nxt = c
                 break
         if nxt is None:
